@@ -36,6 +36,30 @@ def constPair? : Sexp → Option (Sym × Int)
 
 def bad : Sexp := .list [.atom "err", .atom "bad-op"]
 
+def initPair? : Sexp → Option (Sym × Expr)
+  | .list [.atom a, v] => do some (a, ← Expr.ofSexp? v)
+  | _ => none
+
+def keyEntry? : Sexp → Option (Key × Expr)
+  | .list [.atom "str", .atom n, v] => do some (Key.str n, ← Expr.ofSexp? v)
+  | .list [.atom "symbol", .atom n, v] => do some (Key.symbol n, ← Expr.ofSexp? v)
+  | .list [.atom "expr", .atom n, v] => do some (Key.expr n, ← Expr.ofSexp? v)
+  | _ => none
+
+/-- `none` or a list of entries. -/
+def given? : Sexp → Option (Option PMap)
+  | .atom "none" => some none
+  | .list xs => do some (some (← xs.mapM keyEntry?))
+  | _ => none
+
+def mapping? (inits mode given : Sexp) : Option PMap := do
+  let inits ← (← inits.asList?).mapM initPair?
+  let given ← given? given
+  match mode with
+  | .atom "direct" => some (directMapping inits given)
+  | .atom "merge" => some (mergedMapping inits given)
+  | _ => none
+
 def optE : Option Expr → Sexp
   | some e => .list [.atom "some", e.toSexp]
   | none => .atom "none"
@@ -73,6 +97,18 @@ def handle (req : Sexp) : Sexp :=
     match sts? ss, k.asNat?, Expr.ofSexp? m, Expr.ofSexp? e' with
     | some ss, some k, some m, some e' => stsS (muInsert ss k mu m e')
     | _, _, _, _ => bad
+  | .list [.atom "evalpred", ss, .atom dv, zero, inits, mode, given] =>
+    match sts? ss, symList? zero, mapping? inits mode given with
+    | some ss, some zero, some m => .list [optE (evaluatePred ss dv zero m), Sexp.ofBool (obsSafe ss dv)]
+    | _, _, _ => bad
+  | .list [.atom "evalexpr", ss, e, inits, mode, given] =>
+    match sts? ss, Expr.ofSexp? e, mapping? inits mode given with
+    | some ss, some e, some m => optE (evaluateExpression ss e m)
+    | _, _, _ => bad
+  | .list [.atom "mapvalue", inits, mode, given, names] =>
+    match mapping? inits mode given, symList? names with
+    | some m, some names => .list (names.map (fun n => optE (m.value n)))
+    | _, _ => bad
   | _ => bad
 
 def main : IO Unit := runDriver (fun (_ : Unit) r => ((), handle r)) ()
